@@ -75,7 +75,7 @@ def declare2(S: Spec):
            " and c._completed == (done and k == len(c.assignment.ops) - 1)"
            " and implies(c._completed, c.error is None and c._current_memory == 0)")
 
-    COMMON = ["OthersSince(self)", "UsageSince(self)", "resume(self._current_op_idx) == self._current_op_idx"]
+    COMMON = ["GI1()", "OthersSince(self)", "UsageSince(self)", "resume(self._current_op_idx) == self._current_op_idx"]
     DONE2 = "(last_busy_seg_idx is not None and k2 > val(last_busy_seg_idx))"
     DONE3 = ("(last_busy_seg_idx is not None and (seg_idx > val(last_busy_seg_idx) or "
              "(seg_idx == val(last_busy_seg_idx) and i3 == total_seg_ticks)))")
@@ -83,7 +83,7 @@ def declare2(S: Spec):
                 "implies(last_busy_seg_idx is not None, 0 <= val(last_busy_seg_idx) and val(last_busy_seg_idx) < {k}"
                 " and SegTicks(self, segments[val(last_busy_seg_idx)]) > 0"
                 " and all(SegTicks(self, segments[j]) == 0 for j in range(val(last_busy_seg_idx) + 1, {k})))"]
-    STEP = [("usage-delta", "self.pool.consumed_ram_gb - self._current_memory == old(self.pool.consumed_ram_gb - self._current_memory)"),
+    STEP = [("I1", "GI1()"), ("usage-delta", "self.pool.consumed_ram_gb - self._current_memory == old(self.pool.consumed_ram_gb - self._current_memory)"),
             ("others-kept", "all(state(o) == old(state(o)) for o in every('Operator') if o not in self.assignment.ops)"),
             ("one-op-per-tick", "old(self._current_op_idx) <= self._current_op_idx and self._current_op_idx <= old(self._current_op_idx) + 1"),
             ("live-shape", "Runnable(self) and Prefix(self, self._current_op_idx) and Suffix(self, self._current_op_idx + 1)"
@@ -98,12 +98,12 @@ def declare2(S: Spec):
             ("frozen-or-within-limit", "self._current_memory > self.assignment.ram or self._current_memory <= self.assignment.ram")]
 
     S.fn(f"{MC}:Container._tick_generator",
-         requires=["Runnable(self)", "self._current_op_idx == 0", "not self._completed", "Suffix(self, 0)",
+         requires=["Runnable(self)", "GI1()", "self._current_op_idx == 0", "not self._completed", "Suffix(self, 0)",
                    "self._current_memory == 0", "not self._can_suspend", "self.error is None"],
-         raises={"AssertionError": ["state(op) == OperatorState.ASSIGNED",
+         raises={"AssertionError": ["GI1()", "state(op) == OperatorState.ASSIGNED",
                                     "not Admissible(status(op), op, OperatorState.RUNNING)"]},
-         modifies=["(contents(o.pipeline._runtime_status.operator_states) for o in self.assignment.ops)",
-                   "(contents(o.pipeline._runtime_status.state_counts) for o in self.assignment.ops)",
+         modifies=["(values(o.pipeline._runtime_status.operator_states) for o in self.assignment.ops)",
+                   "(values(o.pipeline._runtime_status.state_counts) for o in self.assignment.ops)",
                    "self._current_memory", "self.pool.consumed_ram_gb", "self._completed", "self.error",
                    "self._can_suspend", "self._current_op_idx"],
          locals={"last_busy_seg_idx": Opt(INT)},
@@ -138,8 +138,58 @@ def declare2(S: Spec):
         },
         step_post=STEP,
         rely_havoc=["star('dv:Operator:OperatorState')", "star('dv:OperatorState:int')", "star('fld:ResourcePool.consumed_ram_gb')"],
-        rely_assume=["all(state(o) == old(state(o)) for o in self.assignment.ops)",
-                     "all(WFop(o) for o in self.assignment.ops)"],
+        rely_assume=["all(state(o) == old(state(o)) for o in self.assignment.ops)", "GI1()"],
         resume_requires=["not self._completed"],
         exhaust=[("never-without-completing", "False")],
     )
+
+
+def declare3(S: Spec):
+    """Container.tick / next(generator) / Container.__init__ - the interface the pool sees."""
+    g = S.fns[f"{MC}:Container._tick_generator"]
+    own = lambda e: e.replace("self.", "self.owner.").replace("(self)", "(self.owner)").replace("(self,", "(self.owner,")
+    S.cls("TickGen", {"owner": Ref("Container")}, immutable=("owner",))
+    # visible live-container shape (I4 for one container)
+    S.pred("LiveShape", [("c", Ref("Container"))],
+           "Runnable(c) and Prefix(c, c._current_op_idx) and Suffix(c, c._current_op_idx + 1)"
+           " and c._completed == (c._current_op_idx == len(c.assignment.ops))"
+           " and implies(c._current_op_idx < len(c.assignment.ops),"
+           "             state(c.assignment.ops[c._current_op_idx]) in (OperatorState.ASSIGNED, OperatorState.RUNNING))")
+    step = g.gen["step_post"]
+    S.fn("next_of:TickGen",
+         params={}, returns=None,
+         requires=["self is not None and self.owner is not None", "LiveShape(self.owner)", "GI1()", "not self.owner._completed"],
+         ensures=[(lbl, own(e)) for lbl, e in step],
+         raises={"AssertionError": [own("all(state(o) == old(state(o)) for o in every('Operator') if o not in self.assignment.ops)"), "GI1()"]},
+         modifies=[own(m) for m in g.modifies],
+         note="derived contract: justified by the yield-step / exhaust obligations of Container._tick_generator "
+              "(every resumption runs to the next yield and establishes the step postcondition; the generator never "
+              "finishes without completing the container) under the rely condition stated there")
+    S.fns["next_of:TickGen"].trusted = True
+
+    S.fn(f"{MC}:Container.tick",
+         requires=["self._tick_iter is not None and self._tick_iter.owner is self", "LiveShape(self)", "GI1()"],
+         ensures=[("idle-when-done", "implies(old(self._completed), self._ticks_elapsed == old(self._ticks_elapsed) and self._current_memory == old(self._current_memory)"
+                                     " and self.pool.consumed_ram_gb == old(self.pool.consumed_ram_gb) and self._current_op_idx == old(self._current_op_idx)"
+                                     " and all(state(o) == old(state(o)) for o in every('Operator')))"),
+                  ("one-tick", "implies(not old(self._completed), self._ticks_elapsed == old(self._ticks_elapsed) + 1)")]
+                 + [(lbl, f"implies(not old(self._completed), {e})") for lbl, e in step]
+                 + [("shape-kept", "LiveShape(self)"), ("I1-kept", "GI1()")],
+         raises={"AssertionError": ["all(state(o) == old(state(o)) for o in every('Operator') if o not in self.assignment.ops)", "GI1()"]},
+         modifies=g.modifies + ["self._ticks_elapsed"])
+
+    S.fn(f"{MC}:Container.__init__",
+         params={"assignment": Ref("Assignment"), "pool": Ref("ResourcePool"), "ticks_per_second": INT},
+         requires=["GI1()", "assignment is not None and pool is not None and ticks_per_second >= 1",
+                   "assignment.ops is not None and nodup(assignment.ops) and len(assignment.ops) >= 1",
+                   "all(WFop(op) and OpSegsOK(op) and state(op) == OperatorState.ASSIGNED for op in assignment.ops)",
+                   "assignment.cpu >= 1 and assignment.ram > 0"],
+         ensures=[("fields", "self.assignment is assignment and self.pool is pool and self.ticks_per_second == ticks_per_second"),
+                  ("fresh-start", "self._current_op_idx == 0 and not self._completed and self._current_memory == 0 and not self._can_suspend"
+                                  " and self.error is None and self._ticks_elapsed == 0 and self._suspend_ticks_left is None"),
+                  ("generator", "self._tick_iter is not None and self._tick_iter.owner is self"),
+                  ("shape", "LiveShape(self)"),
+                  ("id", "self.container_id == fmt('c{}', old(Container.next_container_num))"
+                         " and Container.next_container_num == old(Container.next_container_num) + 1")],
+         modifies=["glob('Container.next_container_num')"],
+         allocates=True)
